@@ -74,7 +74,11 @@ type Scenario struct {
 	Discarded string        `json:"discarded,omitempty"`
 	Kind      string        `json:"kind,omitempty"` // "" or "crashed"
 	Crash     string        `json:"crash,omitempty"`
-	Solo      bool          `json:"solo,omitempty"` // runs in a process of its own (it sleeps)
+	Solo      bool          `json:"solo,omitempty"`    // runs in a process of its own (it sleeps)
+	Partial   bool          `json:"partial,omitempty"` // compact scenario of a concurrency pass: judged by the property only
+	ChurnMs   int           `json:"churn_ms,omitempty"`
+	ChurnFam  int           `json:"churn_fam,omitempty"`
+	Churn     *ChurnStats   `json:"churn,omitempty"`
 }
 
 var poisoned bool
@@ -1043,7 +1047,11 @@ func gallina(sc *Scenario) string {
 		return "Crashed"
 	}
 	var b strings.Builder
-	fmt.Fprintf(&b, "Scenario [%d;%d] %s %d [", ipv4.HeaderLen, ipv6.HeaderLen, dpath.TableGallina(sc.Table), sc.NPeers)
+	partial := 0
+	if sc.Partial {
+		partial = 1
+	}
+	fmt.Fprintf(&b, "Scenario [%d;%d;%d] %s %d [", ipv4.HeaderLen, ipv6.HeaderLen, partial, dpath.TableGallina(sc.Table), sc.NPeers)
 	for i, ev := range sc.Evs {
 		if i > 0 {
 			b.WriteString(";\n ")
@@ -1145,10 +1153,16 @@ type job struct {
 	run  func() *Scenario
 }
 
+var churnMs = 1500
+
 func buildJobs(seed int64, n int, big bool, corpus, replayIn string) []job {
 	var jobs []job
 	fixedJob := func(sc *Scenario) job {
 		return job{sc.Gen, sc.Solo, func() *Scenario {
+			if strings.HasPrefix(sc.Gen, "churn-") {
+				runChurn(sc)
+				return sc
+			}
 			run(sc)
 			if sc.Discarded != "" && !poisoned && replayIn == "" {
 				run(sc) // one retry: a step that did not settle is a harness matter, not a verdict
@@ -1187,6 +1201,7 @@ func buildJobs(seed int64, n int, big bool, corpus, replayIn string) []job {
 		}
 	}
 	jobs = append(jobs, fixedJob(f1Scenario()))
+	jobs = append(jobs, fixedJob(churnScenario(4, churnMs)), fixedJob(churnScenario(6, churnMs)), fixedJob(churnScenario(4, churnMs)), fixedJob(churnScenario(6, churnMs)))
 	for _, sc := range directed() {
 		jobs = append(jobs, fixedJob(sc))
 	}
